@@ -184,17 +184,17 @@ impl FactorizedExpandOperator {
         // Create the factorized chunk starting from the flat input
         let mut chunk = FactorizedChunk::from_flat(&input, column_names.clone());
 
-        // Add the expansion level even when no source has a matching edge: the level then
-        // has multiplicity 0 everywhere and the chunk flattens to zero rows. Leaving it out
-        // would let the source rows through with the edge / target columns missing.
-        column_names.push("_edge".to_string());
-        column_names.push("_target".to_string());
+        // Add the expansion level if there are any edges
+        if !edge_ids.is_empty() {
+            column_names.push("_edge".to_string());
+            column_names.push("_target".to_string());
 
-        chunk.add_level(
-            vec![edge_ids, target_ids],
-            vec!["_edge".to_string(), "_target".to_string()],
-            &offsets,
-        );
+            chunk.add_level(
+                vec![edge_ids, target_ids],
+                vec!["_edge".to_string(), "_target".to_string()],
+                &offsets,
+            );
+        }
 
         Ok(chunk)
     }
@@ -472,13 +472,14 @@ impl FactorizedExpandChain {
             offsets.push(edge_ids.len() as u32);
         }
 
-        // Add the new level even if it is empty (see process_chunk): no path continues, so
-        // the result must flatten to zero rows rather than to the shorter prefixes.
-        chunk.add_level(
-            vec![edge_ids, target_ids],
-            vec!["_edge".to_string(), "_target".to_string()],
-            &offsets,
-        );
+        // Add the new level if there are any edges
+        if !edge_ids.is_empty() {
+            chunk.add_level(
+                vec![edge_ids, target_ids],
+                vec!["_edge".to_string(), "_target".to_string()],
+                &offsets,
+            );
+        }
 
         Ok(())
     }
